@@ -76,6 +76,15 @@ func vC12Run(t *testing.T, gen func(e *vEnv, r *vRand) []vCase, exec func(t *tes
 		data, _ := json.Marshal(c)
 		off += int64(len(data)) + 1
 	}
+	if vC12Stalled.Load() {
+		// Every case has run and is written with its observations (the stall is in the line of the case that
+		// caused it and is judged there).  The hub's own shutdown in the test cleanup would now wait for the
+		// blocked goroutine and fail the test binary, which tools/check.py would read as "the process died
+		// during the last case" — the wrong case.
+		out.Sync() // nolint
+		out.Close()
+		os.Exit(0)
+	}
 }
 
 // ---------- the decoded shape of a document (input of the Lean model) ----------
